@@ -10,6 +10,9 @@ CONSTANTS
   HasReader = TRUE
   ClosesSocket = TRUE
   PopAtomic = TRUE
+  WriteWakes = {"ctx", "sock"}
+  LockWakes = {"ctx"}
+  CloseTakesWriteLock = FALSE
   ParkWakes = "conn"
   Noise = {"silent", "unsolicited", "garbage"}
 INVARIANTS NoFalseError SlotsSane OnceEach SockOnce DoneOnceIfReaderOnly
